@@ -88,6 +88,27 @@ def dh_groups(v, tier):
                 break
             if ref[0] == 0:
                 lead += 1
+    # directed: for every group, a peer value chosen so that g^ir starts with a zero octet (RFC 7296 2.14: g^ir keeps the length of the
+    # modulus / field element, leading zero octets included) - sampling alone meets this case once in 256 exchanges
+    for g in [19, 20, 21, 14, 15] + ([16, 17, 18] if tier == 'thorough' else []):
+        for rep in range(2 if tier == 'quick' else 6):
+            a = crypto.DiffieHellman.from_group(g)
+            forced = kdf_ref.dh_peer_forcing_leading_zero(g, bytes(a.public_key))
+            if forced is None:
+                raise common.MachineryError(f'no peer value forcing a leading zero octet found for group {g}')
+            xa = a._private_key.private_numbers()
+            xa = xa.x if hasattr(xa, 'x') else xa.private_value
+            ref = kdf_ref.dh_shared(g, xa, forced[0])
+            if ref[0] != 0:
+                raise common.MachineryError(f'group {g}: the stepped search and the reference exponentiation disagree')
+            a.compute_secret(forced[0])
+            n += 1
+            lead += 1
+            if bytes(a.shared_secret) != ref:
+                v.violation(f'group {g}: shared secret with leading zero octets differs from the fixed-width value of RFC 7296 2.14',
+                            {'impl_len': len(a.shared_secret), 'ref_len': len(ref), 'peer_exponent': forced[1]},
+                            signature={'component': 'dh:secret', 'group': g})
+                break
     return n, lead
 
 
@@ -104,6 +125,57 @@ def nonce_lengths(v, kdf):
         if err is not None:
             v.violation(f'nonce length {ln}: {err}', {}, signature={'component': 'nonce:' + err.kind})
     return n
+
+
+class SteerDh:
+    """Environment steering: the responder's random DH key of every exchange is redrawn until g^ir starts with a zero octet (checked with the
+    independent arithmetic), so that whole sessions - SKEYSEED, PFS KEYMAT, the rekeyed IKE_SA - run over secrets with leading zeros."""
+
+    def __init__(self, limit=4000):
+        self.limit, self.pending, self.steered = limit, {}, 0
+
+    def __enter__(self):
+        import crypto
+        self.crypto, self.orig = crypto, crypto.DiffieHellman.from_group
+        steer = self
+
+        def from_group(group, *a, **k):
+            g = int(group)
+            obj = steer.orig(group, *a, **k)
+            peer = steer.pending.pop(g, None)
+            if peer is None:
+                steer.pending[g] = bytes(obj.public_key)
+                return obj
+            for _ in range(steer.limit):
+                x = obj._private_key.private_numbers()
+                x = x.x if hasattr(x, 'x') else x.private_value
+                if kdf_ref.dh_shared(g, x, peer)[0] == 0:
+                    steer.steered += 1
+                    return obj
+                obj = steer.orig(group, *a, **k)
+            return obj
+        crypto.DiffieHellman.from_group = staticmethod(from_group)
+        return self
+
+    def __exit__(self, *exc):
+        self.crypto.DiffieHellman.from_group = staticmethod(self.orig)
+
+
+def leading_zero_sessions(v, kdf, tier):
+    """Full sessions (initial exchanges, PFS CHILD_SA rekey, IKE_SA rekey) whose DH secrets all start with a zero octet."""
+    n = steered = 0
+    for grp in (['modp2048', 'ecp256'] if tier == 'quick' else ['modp2048', 'modp3072', 'ecp256', 'ecp384', 'ecp521']):
+        cfg = {e: dict(ike_dh=[grp], child_dh=[grp], v6=False, ip_proto='tcp', peer_port=0) for e in 'AB'}
+        with SteerDh() as st:
+            done, checks, nn, err = _hist(cfg, 32, kdf)
+        n += 1
+        steered += st.steered
+        if err is not None:
+            v.violation(f'session over {grp} with DH secrets that start with a zero octet: {err}', {'steered_exchanges': st.steered},
+                        signature={'component': 'dh:leadingzero:' + err.kind})
+        elif st.steered < 2:
+            raise common.MachineryError(f'{grp}: only {st.steered} exchanges could be steered to a leading zero octet')
+    return n, steered
 
 
 def _hist(cfg, nonce_len, kdf):
@@ -136,15 +208,16 @@ def run(tier, replay=None):
     n_pp = prfplus_lengths(v, kdf, tier)
     n_dh, lead = dh_groups(v, tier)
     n_nonce = nonce_lengths(v, kdf)
+    n_lz, steered = leading_zero_sessions(v, kdf, tier)
     m = v.coverage['matrix']
     v.coverage.update({
-        'evaluations': evals + n_pp + n_dh + n_nonce, 'distinct_nontrivial': distinct + n_pp,
+        'evaluations': evals + n_pp + n_dh + n_nonce + n_lz, 'distinct_nontrivial': distinct + n_pp,
         'rule': 'sessions: every supported (ENCR keylen, INTEG, PRF, DH) suite once with an IKE_SA rekey on top (quick: the four large MODP groups '
                 'with one suite each) + seeded ESP/AH/PFS histories, all judged by the wire oracle evaluating the KeySchedule.tla plans; '
-                'prf+ for output lengths 1..8*hash+1; DH: published primes/curves, fixed-width public values, shared secrets vs Python integers; '
+                'prf+ for output lengths 1..8*hash+1; DH: published primes/curves, fixed-width public values, shared secrets vs Python integers, incl. peer values forcing a leading zero octet, and whole sessions whose responder keys are redrawn until g^ir starts with a zero octet; '
                 'distinct = distinct suites/configurations + distinct prf+ (prf, length) cases',
         'exhaustive': tier == 'thorough',
-        'prfplus_cases': n_pp, 'dh_pairs': n_dh, 'dh_secrets_with_leading_zero_octet': lead, 'nonce_length_sessions': n_nonce,
+        'prfplus_cases': n_pp, 'dh_pairs': n_dh, 'dh_secrets_with_leading_zero_octet': lead, 'nonce_length_sessions': n_nonce, 'sessions_steered_to_leading_zero_secrets': n_lz, 'steered_dh_exchanges': steered,
         'samples': m['samples'][:1] + [{'plan_ike_example': kdf.plans['ike'][0]}]})
     v.assumptions += ['SHA-1/SHA-2 (hashlib), AES (OpenSSL) and the DH private scalars read off the cryptography key objects are trusted',
                       'TLC fixes structure, order, counters and slice boundaries (32-bit integers); numeric evaluation by the harness']
